@@ -24,6 +24,18 @@ inductive Err
 
 inductive Kind | add | acc | dial | sess | udp deriving DecidableEq, Repr
 
+/-- the engine's epoll mode -/
+inductive PMode | lt | et | os deriving DecidableEq, Repr
+
+/-- the interest set every registration of a descriptor carries in that mode, the writing bit aside: EPOLLERR | EPOLLHUP
+    | EPOLLRDHUP | EPOLLPRI | EPOLLIN, plus EPOLLET, plus EPOLLONESHOT (what the kernel will report for the descriptor —
+    a peer's FIN as EPOLLRDHUP only because it is asked for). `Lemmas/SrcBridgeLife.lean` proves that this is what
+    `poller.setRead` / `setReadWrite` (translated from source) pass to `epoll_ctl`. -/
+def interest : PMode → UInt32
+  | .lt => 0x8 ||| 0x10 ||| 0x2000 ||| 0x2 ||| 0x1
+  | .et => 0x8 ||| 0x10 ||| 0x2000 ||| 0x2 ||| 0x1 ||| 0x80000000
+  | .os => 0x8 ||| 0x10 ||| 0x2000 ||| 0x2 ||| 0x1 ||| 0x80000000 ||| 0x40000000
+
 inductive DialSt | none | pending | done deriving DecidableEq, Repr
 
 inductive Item | buf (n : Nat) | file (n : Nat) deriving DecidableEq, Repr
